@@ -249,9 +249,13 @@ ThenClosed  == wire # <<>> => tp # "open"                                       
 ChainAllowed == ChainVerdict(cfg.mw, 1).allow
 GateC04     == (calls.h + calls.u > 0) => (ChainAllowed /\ mwIdx = Len(cfg.mw))  \* C04
 NoneBeyondRefusal == calls.mw <= ChainVerdict(cfg.mw, 1).upto                    \* C04: nobody consulted after the first refusal
+\* a component that refuses with a response: that response; one that raises (or refuses without a text): a refusal - which
+\* 4x/5x/6x status the server picks for it is not the property's business
 FirstRejectionWins ==                                                            \* C04
   (~ChainAllowed /\ Len(wire) = 1 /\ timer # "fired" /\ pending = "none" /\ calls.mw > 0)
-      => wire[1] = ChainVerdict(cfg.mw, 1).r
+      => LET v == ChainVerdict(cfg.mw, 1) IN
+         IF cfg.mw[v.upto] \in {"deny53", "deny44", "deny60"} THEN wire[1] = v.r
+         ELSE wire[1].st \in 40..69 /\ ~wire[1].body
 AtMostOnce  == calls.h + calls.u <= 1                                            \* C07
 \* C15: once a complete request has been received the timer can no longer produce a response or a close
 TimeoutHarmless == [][(timer = "armed" /\ timer' = "fired" /\ complete) => (wire' = wire /\ tp' = tp)]_vars
